@@ -25,6 +25,8 @@ WEIGHTED = {'fast_SIR', 'fast_SIS', 'Gillespie_SIR', 'Gillespie_SIS'}
 HAS_R0 = {'fast_SIR', 'fast_nonMarkov_SIR', 'Gillespie_SIR', 'discrete_SIR', 'basic_discrete_SIR',
           'percolation_based_discrete_SIR'}
 SINGLE_NEIGHBOUR = [s for s in SIMS if s != 'Gillespie_complex_contagion']
+# initial_recovereds is documented as 'iterable of nodes' and is consumed exactly once by these two (observed on the pinned tree)
+ONE_SHOT_R0 = {'fast_SIR', 'fast_nonMarkov_SIR'}
 
 # canonical generic models: (statuses, spontaneous [(A,B,rate,mode)], induced [(A,B,C,rate,mode)])
 SPECS = [
@@ -187,6 +189,8 @@ def build(case, full, budget=None, G=None, extra=None):
         kw['initial_infecteds'] = list(I0)
         if R0 and sim in HAS_R0:
             kw['initial_recovereds'] = list(R0)
+            if case.get('R0_one_shot') and sim in ONE_SHOT_R0:
+                kw['initial_recovereds'] = iter(list(R0)) if case['R0_one_shot'] == 'iter' else (u for u in list(R0))
     f = getattr(EoN, sim)
     if sim in WEIGHTED:
         if case.get('ew'):
@@ -284,6 +288,8 @@ def sim_case(draw, sims=SIMS, nmax=25, labels=('int', 'perm', 'str', 'tuple'), f
             'p': draw(st.one_of(st.sampled_from([0.0, 1.0, 0.5]), st.floats(0.01, 0.99))),
             'ew': None, 'nw': None, 'I0': I0, 'R0': R0, 'tmin': tmin, 'tmax': tmax,
             'seed': draw(st.integers(0, 2 ** 31 - 1))}
+    if sim in ONE_SHOT_R0 and R0 and draw(st.integers(0, 2)) == 0:
+        case['R0_one_shot'] = draw(st.sampled_from(['iter', 'generator']))
     if sim in WEIGHTED:
         if draw(st.booleans()):
             case['ew'] = list(gc['ew'])[0]
